@@ -14,6 +14,18 @@ CHECKS = {
    technique="property-based round-trip testing: generated message specs are encoded by the crate and read back by an independent RFC 1035 parser and by the crate's own decoder; omissions must be justified by size",
    text="Exploration: 1.5e5 (quick) / 4e6 (thorough) generated messages over label pools with shared suffixes, near-collisions and escapes, from empty to several packets. Every emitted packet is parsed by an independent decoder and compared with what was added (order-preserving, omissions only when the record does not fit).",
    note="Trusted: harness/src/refdns.rs (parser and size model). Names are valid DNS names (<=255 octets). Known finding: questions are never size-checked."),
+ "C16": dict(engine=E1+"+"+E3, design="6/C16",
+   technique="property-based round-trip and differential testing of TXT encoding/decoding against an independent RFC 6763 codec over generated property lists and arbitrary RDATA, plus end-to-end register->browse between two simulated daemons",
+   text="Exploration: ~1.5e6 generated property lists through every supported input type (refusal rule, held list, generated RDATA read by a reference decoder, first-key-wins, case-insensitive lookup), 3e6 arbitrary byte strings as received RDATA, and 2e4 end-to-end runs between two simulated daemons (quick tier).",
+   note="Trusted: refdns::txt_* reference codec; the simulation hooks. Zero-length received strings may end or be skipped; HashMap input is unordered."),
+ "C07": dict(engine=E3, design="6/C07",
+   technique="stateful property-based testing of the real daemon loop in a deterministic simulation (virtual clock, simulated interfaces, captured packets): generated registrations, wire-level oracle on probe/announce timelines",
+   text="Exploration: 1.6e4 (quick) / 4e5 (thorough) generated registration scenarios (1-4 services, 1-3 interfaces, v4/v6, shared hosts, staggered starts, late interfaces, early queries, scripted jitter; thorough covers every jitter 0..249). Each (service, interface, family) is judged on the captured packets: three probes 250 ms apart with the proposed records, no answer before the announcement, two complete announcements 1 s apart, bounded time.",
+   note="Trusted: simulation hooks (src/verif.rs) and refdns. Silent network, exact wake-ups. Late interfaces judged for enable_addr_auto services only."),
+ "C09": dict(engine=E3, design="6/C09",
+   technique="stateful property-based testing in the deterministic daemon simulation: generated register / re-register / conflict / unregister / shutdown sequences, wire-level oracle on goodbyes and silence",
+   text="Exploration: 3e4 (quick) / 8e5 (thorough) generated op sequences over 1-3 services and 1-3 interfaces. Oracle: unregister reply vs a model of registrations; goodbye exactly on the (interface, family) pairs where the service was announced since its last register, complete, under the last announced names, repeated 120 ms later; nothing with a positive TTL afterwards; other services still answered.",
+   note="Trusted: simulation hooks and refdns. Services are recognised on the wire by a TXT attribute id=<n>. Conflicts are injected only while the single current registration is unannounced."),
 }
 
 def check_entry(pid, c):
